@@ -113,6 +113,8 @@ class Analysis:
             if any(fq.startswith(x) for x in exclude_pkgs):
                 continue
             fi = self.prog.functions[fq]
+            if fi.inlined:
+                continue
             for (c, _exp) in sites:
                 if self.res.is_call_to(c, *targets):
                     out.append((fi, c))
@@ -362,7 +364,7 @@ class Analysis:
         """All `self.attr = value` (and `x.attr = value` where x has the class
         type) stores in the package."""
         out = []
-        for fi in self.prog.functions.values():
+        for fi in self.prog.scan_functions:
             for node in walk_local(fi.node):
                 tgt = val = None
                 if isinstance(node, ast.Assign):
@@ -381,6 +383,8 @@ class Analysis:
     def constructions(self, cls_fq: str) -> List[Tuple[FunctionInfo, ast.Call]]:
         out = []
         for fq, sites in self.cg.sites.items():
+            if self.prog.functions[fq].inlined:
+                continue
             for (c, exp) in sites:
                 if cls_fq in self.res.callees(c):
                     out.append((self.prog.functions[fq], c))
